@@ -856,6 +856,30 @@ fn test_multiple_extended_includes_in_loop() {
     assert_eq!(rv, "012");
 }
 
+#[test]
+fn test_include_of_non_iterable_object_is_an_error() {
+    // a value that is neither a string nor something that can be iterated is
+    // not a template name; the include must not be skipped silently
+    let mut env = Environment::new();
+    env.add_template("a.txt", "A").unwrap();
+    for source in [
+        "{% include range %}",
+        "{% include range ignore missing %}",
+        "{% import range as m %}",
+        "{% from range import x %}",
+    ] {
+        let err = env.render_str(source, ()).unwrap_err();
+        assert_eq!(err.kind(), ErrorKind::InvalidOperation);
+        assert_eq!(err.detail(), Some("template name was not a string"));
+    }
+    // lists of choices keep working for every kind of iterable
+    let ctx = context! {
+        lazy => Value::make_iterable(|| ["missing.txt", "a.txt"].into_iter()),
+    };
+    assert_eq!(env.render_str("{% include lazy %}", ctx).unwrap(), "A");
+    assert_eq!(env.render_str("{% include [] %}", ()).unwrap(), "");
+}
+
 /// See https://github.com/mitsuhiko/minijinja/issues/551
 #[test]
 fn test_filter_caching() {
